@@ -215,6 +215,20 @@ package tree
 //@   loop 0 invariant bestCaseName == "" ==> bestCasePrio == 2147483647
 //@   loop 0 invariant bestCaseName != "" ==> present(c.cases, bestCaseName) && c.cases[bestCaseName].GetLowestPriorityValue() == bestCasePrio && bestCasePrio < 2147483647
 
+// assumed of the library: a clone has the elements of its source
+//@ extern slices.Clone
+//@   noeffect
+//@   ensures same_length: len(result) == len(s)
+
+// the case that ruled before the transaction, among the values that were not set by it, is one of the cases
+//@ func (*choiceCasesResolver).getOldBestCaseName
+//@   props C08 C01
+//@   requires resolverOK(c)
+//@   modifies nothing
+//@   ensures is_a_case: result != "" ==> present(c.cases, result)
+//@   loop 0 invariant $map == c.cases
+//@   loop 0 invariant bestCaseName != "" ==> present(c.cases, bestCaseName)
+
 // the members to skip are exactly the members of the cases that lost
 //@ func (*choiceCasesResolver).GetSkipElements
 //@   props C08
@@ -568,8 +582,12 @@ package tree
 //@   ensures keeps_collected: r1 == nil ==> len(r0) >= len(acc) && forall(i, 0, len(acc), r0[i] == old(acc[i]))
 //@   internal every_child_is_searched_unless_the_node_itself_is_deleted: r1 == nil && !called(GetAll) ==> len(r0) > len(acc) && r0[len(r0) - 1] == DeleteEntry(s)
 //@   loop 0 invariant collected_so_far_is_kept_resolvers: len(deletes) >= len(acc) && forall(i, 0, len(acc), deletes[i] == old(acc[i]))
-//@   loop 1 invariant collected_so_far_is_kept: len(deletes) >= len(acc) && forall(i, 0, len(acc), deletes[i] == old(acc[i]))
-//@   loop 1 invariant all_children_are_searched [C01]: called(GetAll) && $map == callres(GetAll) && allstr(k, present($map, k) ==> $map[k] != nil)
+//@   loop 1 invariant collected_so_far_is_kept_members: len(deletes) >= len(acc) && forall(i, 0, len(acc), deletes[i] == old(acc[i]))
+// what is deleted for a case that lost the choice lies below this node: one of its children, or a path one element longer
+//@   loop 1 invariant losing_case_is_deleted_below_this_node [C01 C09]: called(NewDeleteEntryImpl) ==> callarg(NewDeleteEntryImpl, 0, 0) != callres(SdcpbPath, 0, 0) &&
+//@            callarg(NewDeleteEntryImpl, 0, 0) != nil && len(callarg(NewDeleteEntryImpl, 0, 1)) == len(callres(Path, 0)) + 1
+//@   loop 2 invariant collected_so_far_is_kept: len(deletes) >= len(acc) && forall(i, 0, len(acc), deletes[i] == old(acc[i]))
+//@   loop 2 invariant all_children_are_searched [C01]: called(GetAll) && $map == callres(GetAll) && allstr(k, present($map, k) ==> $map[k] != nil)
 
 //   shouldDelete   = the leaf variants are to be deleted, or: there are active children, every one of them can be
 //                    deleted, at least one of them is to be deleted, and the leaf variants can be deleted
